@@ -40,14 +40,21 @@ def h_fence(max_bytes):
                 return False
             conds += [char_eq(x, TICK) for x in t]
             conds += [char_eq(x, y) for x, y in zip(t, line)]
-            if c:
-                conds += [char_eq(x, y) for x, y in zip(c, line[n - len(c):])]
-                conds.append(char_eq(c[0], BRACE))
-            mid = line[len(t):n - len(c)]
-            conds += [char_eq(x, y) for x, y in zip(l, mid)]
-            conds += [is_whitespace(x) for x in mid[len(l):]]
+            # line = t ++ l ++ blanks ++ c ++ blanks: nothing but whitespace is left out
+            rest = line[len(t):]
+            conds += [char_eq(x, y) for x, y in zip(l, rest)]
             if l:
                 conds.append(z_not(is_whitespace(l[-1])))
+            tail = rest[len(l):]
+            if c:
+                conds.append(char_eq(c[0], BRACE))
+                alts = []
+                for p in range(0, len(tail) - len(c) + 1):
+                    alts.append(z_and([is_whitespace(x) for x in tail[:p]] + [char_eq(x, y) for x, y in zip(c, tail[p:])]
+                                      + [is_whitespace(x) for x in tail[p + len(c):]]))
+                conds.append(z_or(alts))
+            else:
+                conds += [is_whitespace(x) for x in tail]
             return z_and(conds)
         # None: the line must not be `>= 3 backticks + info string without backticks`
         bad = []
@@ -70,13 +77,13 @@ def h_fence(max_bytes):
         t, l, c = nv["Some"]
         if len(t) < 3 or set(t) != {"`"}:
             return True, "line %r opens a fence with opener %r (fewer than three backticks)" % (line, t), "fence-opener:backticks=%d" % len(t)
-        if not line.startswith(t) or not line.endswith(c) or (c and c[0] != "{") or line[len(t):len(line) - len(c)].rstrip() != l:
+        if not line.startswith(t) or not line.rstrip().endswith(c) or (c and c[0] != "{") or line.rstrip()[len(t):len(line.rstrip()) - len(c)].rstrip() != l:
             return True, "pieces %r do not re-assemble line %r" % (nv, line), "fence-classifier:pieces"
         return False, "", ""
     inputs = [("widths=%s" % sh, (lambda ctx, sh=sh: [ctx.sym_str("l", sh)])) for sh in e2.str_shapes(max_bytes)]
     return e2.Harness("fence_classifier", "parsers::markdown::extract_code_block_start", inputs, post,
                       native="extract_code_block_start", judge=judge,
-                      describe="no panic; Some(t,l,c) ⇒ t is >= 3 backticks, t/l/c re-assemble the line, c is empty or starts "
+                      describe="no panic; Some(t,l,c) ⇒ t is >= 3 backticks, t/l/c re-assemble the line up to blanks after l and after c, c is empty or starts "
                                "with '{'; None ⇒ the line is not `>= 3 backticks + backtick-free info string`",
                       bound="all valid UTF-8 lines of <= %d bytes" % max_bytes)
 
